@@ -55,13 +55,17 @@ def fock_cases(ctx, n_cases):
         return c
 
     kinds = ["twoModePure", "twoModeMixed", "blasPure1", "blasPure2", "blasMixed1", "blasMixed2", "mix",
-             "partialTrace", "projectResetPure", "projectResetMixed", "axisLists"]
+             "partialTrace", "projectResetPure", "projectResetMixed", "axisLists", "prepareAll", "prepareSome"]
     # all ordered target pairs are cycled through, sizes 2..4 (thorough: 5)
     pair_cycle = {n: itertools.cycle(list(itertools.permutations(range(n), 2))) for n in range(2, 7)}
     for it in range(n_cases):
         kind = kinds[it % len(kinds)]
         D = rng.choice([2, 2, 3])
         pure = kind in ("twoModePure", "blasPure1", "blasPure2", "mix", "projectResetPure")
+        if kind == "prepareAll":
+            pure = rng.random() < 0.5
+        if kind == "prepareSome":
+            pure = False
         nmax = (4 if pure else 3) + (1 if ctx.tier == "thorough" and D == 2 else 0)
         n = rng.randint(2 if "2" in kind or "two" in kind else 1, nmax)
         rank = n if pure else 2 * n
@@ -130,6 +134,31 @@ def fock_cases(ctx, n_cases):
                 return flat(fops.project_reset(ms, xs, st, pure, n, D))
             case = dict(kind=kind, n=n, D=D, modes=ms, xs=xs)
             nontrivial = n >= 2
+        elif kind == "prepareAll":     # Circuit.prepare_multimode on the whole register, modes in any order
+            ms = rng.sample(range(n), n)
+            req.update(kind="prepareAll", modes=ms, mat=[], pure=pure)
+
+            def real(n=n, D=D, pure=pure, st=st, ms=ms):
+                c = circuit(n, D, pure, np.zeros((D,) * (n if pure else 2 * n)))
+                c.prepare_multimode(np.array(st), list(ms))
+                return flat(c._state)
+            case = dict(kind=kind, n=n, D=D, modes=ms, pure=pure)
+            nontrivial = ms != list(range(n))
+        elif kind == "prepareSome":    # … on a proper subset: partial trace, tensor product, argsort transposition
+            n = max(n, 2)
+            rank = 2 * n
+            st = rand_int_tensor(nprng, (D,) * rank, density=rng.choice([1.0, 0.6]))
+            k = rng.randint(1, n - 1)
+            ms = rng.sample(range(n), k)
+            sig = rand_int_tensor(nprng, (D,) * (2 * k), -2, 2)
+            req = dict(op="fock.apply", kind="prepareSome", D=D, n=n, modes=ms, state=flat(st), mat=flat(sig))
+
+            def real(n=n, D=D, st=st, ms=ms, sig=sig):
+                c = circuit(n, D, False, st)
+                c.prepare_multimode(np.array(sig), list(ms))
+                return flat(c._state)
+            case = dict(kind=kind, n=n, D=D, modes=ms)
+            nontrivial = ms != list(range(n - k, n))
         else:  # axisLists: the model's transposition lists must be permutations for every mode choice
             k = rng.randint(1, min(2, n))
             ms = rng.sample(range(n), k)
@@ -206,13 +235,18 @@ def gauss_cases(ctx, n_cases):
     for it in range(n_cases):
         n = rng.randint(1, 5 if ctx.tier == "quick" else 7)
         N, M, mean = rand_nm_state(rng, n)
-        g = GaussianModes(n)
+        from strawberryfields.backends.gaussianbackend.backend import GaussianBackend
+        be = GaussianBackend()
+        be.begin_circuit(n)
+        g = be.circuit
+        spec_ok = True
         g.nmat = np.array([[complex(float(a), float(b)) for a, b in row] for row in N], dtype=complex).reshape(n, n)
         g.mmat = np.array([[complex(float(a), float(b)) for a, b in row] for row in M], dtype=complex).reshape(n, n)
         g.mean = np.array([complex(float(a), float(b)) for a, b in mean], dtype=complex)
         ops, names = [], []
         for _ in range(rng.randint(1, 6)):
-            kinds = ["squeeze", "phase", "displace", "loss", "thermalLoss", "initThermal"] + (["bs", "bs"] if n >= 2 else [])
+            kinds = ["squeeze", "phase", "displace", "loss", "thermalLoss", "initThermal", "fromCov", "applyU"] + \
+                (["bs", "bs"] if n >= 2 else [])
             kind = rng.choice(kinds)
             k = rng.randrange(n)
             names.append(kind)
@@ -245,11 +279,36 @@ def gauss_cases(ctx, n_cases):
                 nbar = rng.choice([Fraction(0), Fraction(1, 2), Fraction(2)])
                 ops.append(dict(op="thermalLoss", q=fr(q), add=fr((1 - q * q) * nbar), k=k))
                 g.thermal_loss(float(q * q), float(nbar), k)
+            elif kind == "fromCov":      # GaussianBackend.prepare_gaussian_state(r, V, modes): mode list in any order
+                kk = rng.randint(1, min(3, n))
+                modes = rng.sample(range(n), kk)
+                qq = lambda: Fraction(rng.randint(-6, 6), rng.choice([1, 2, 4]))
+                S1 = [[qq() for _ in range(kk)] for _ in range(kk)]
+                S2 = [[qq() for _ in range(kk)] for _ in range(kk)]
+                A = [[S1[i][j] + S1[j][i] for j in range(kk)] for i in range(kk)]
+                C = [[S2[i][j] + S2[j][i] for j in range(kk)] for i in range(kk)]
+                B = [[qq() for _ in range(kk)] for _ in range(kk)]
+                rx = [qq() for _ in range(kk)]
+                rp = [qq() for _ in range(kk)]
+                ops.append(dict(op="fromCov", modes=modes, A=[[fr(x) for x in r] for r in A], B=[[fr(x) for x in r] for r in B],
+                                C=[[fr(x) for x in r] for r in C], rx=[fr(x) for x in rx], rp=[fr(x) for x in rp], k=modes[0]))
+                f = lambda M: np.array([[float(x) for x in r] for r in M])
+                V = np.block([[f(A), f(B)], [f(B).T, f(C)]])
+                be.prepare_gaussian_state(np.array([float(x) for x in rx + rp]), V, modes)
+                spec_ok = False
+            elif kind == "applyU":       # GaussianBackend.passive(T, modes): T_expand[ix_(modes, modes)] = T, then apply_u
+                kk = rng.randint(1, min(3, n))
+                modes = rng.sample(range(n), kk)
+                qq = lambda: Fraction(rng.randint(-4, 4), rng.choice([1, 2]))
+                T = [[(qq(), qq()) for _ in range(kk)] for _ in range(kk)]
+                ops.append(dict(op="applyU", modes=modes, T=[[[fr(a), fr(b)] for a, b in r] for r in T], k=modes[0]))
+                be.passive(np.array([[complex(float(a), float(b)) for a, b in r] for r in T]), modes)
+                spec_ok = False
             else:
                 pop = rng.choice([Fraction(0), Fraction(1, 4), Fraction(3)])
                 ops.append(dict(op="initThermal", pop=fr(pop), k=k))
                 g.init_thermal(float(pop), k)
-        req = {"op": "gauss.run", "n": n, "spec": True,
+        req = {"op": "gauss.run", "n": n, "spec": spec_ok,
                "N": [[[fr(a), fr(b)] for a, b in row] for row in N],
                "M": [[[fr(a), fr(b)] for a, b in row] for row in M],
                "mean": [[fr(a), fr(b)] for a, b in mean], "ops": ops}
@@ -296,7 +355,7 @@ def run_gauss_corr(ctx, n_cases):
         d2 = max(np.max(np.abs(V - Vm)), np.max(np.abs(mu - mum)))
         if d2 > 1e-9 * max(1.0, float(np.max(np.abs(Vm)))):
             ctx.disagree("GaussNM toXP vs scovmatxp/smeanxp", case, str(Vm), str(V))
-        if model.get("specAgrees") is not True:
+        if "specAgrees" in model and model.get("specAgrees") is not True:
             # the proved refinement evaluated on this instance (a cross-check of the theorem's reading)
             ctx.disagree("GaussNM refinement instance (model internal)", case, model.get("specAgrees"), True)
 
